@@ -125,3 +125,48 @@ package pullapi
 //@   modifies dequeueRequest.*, leaseRequest.*, respStatus, maps(http.Header)
 //@ func parseDuration
 //@   trusted
+
+// ---- C04 (pull layer, batches): the idempotency cache learns only leases the store settled ----
+
+//@ spec
+//@ pred inIDs(ids []string, id string) := exists j int :: 0 <= j && j < len(ids) && ids[j] == id
+//@ ghost var lastSuccessful []string
+//@ func observeBatchAck
+//@   trusted
+//@ func observeBatchNack
+//@   trusted
+
+//@ func (*Server).partitionRecentlyCompletedLeases
+//@   requires s != nil
+//@   loop 1 invariant [split_so_far] rangeindex < len(leaseIDs) && len(pending) + len(completed) == rangeindex + 1 && (forall k int :: 0 <= k && k < len(completed) ==> leaseOpKey(completed[k], op) in remembered && inIDs(leaseIDs, completed[k])) && (forall k int :: 0 <= k && k < len(pending) ==> inIDs(leaseIDs, pending[k]))
+//@   ensures [C04:completed_were_remembered_for_this_operation] forall k int :: 0 <= k && k < len(result1) ==> leaseOpKey(result1[k], op) in remembered && inIDs(leaseIDs, result1[k])
+//@   ensures [C04:every_id_is_pending_or_completed] len(result0) + len(result1) == len(leaseIDs) && forall k int :: 0 <= k && k < len(result0) ==> inIDs(leaseIDs, result0[k])
+
+//@ func (*Server).successfulLeaseIDs
+//@   modifies lastSuccessful
+//@   sets lastSuccessful := result
+//@   ensures [tied] lastSuccessful == result
+//@   loop 1 invariant [conflict_ids_indexed] conflictByID != nil && rangeindex < len(conflicts) && forall c int :: 0 <= c && c <= rangeindex ==> conflicts[c].LeaseID in conflictByID
+//@   loop 2 invariant [only_unconflicted] (forall c int :: 0 <= c && c < len(conflicts) ==> conflicts[c].LeaseID in conflictByID) && forall k int :: 0 <= k && k < len(out) ==> inIDs(leaseIDs, out[k]) && !(out[k] in conflictByID)
+//@   ensures [C04:successful_ids_are_listed_and_not_in_conflict] forall k int :: 0 <= k && k < len(result) ==> inIDs(leaseIDs, result[k]) && forall c int :: 0 <= c && c < len(conflicts) ==> conflicts[c].LeaseID != result[k]
+
+//@ func (*Server).AckBatch
+//@   requires s != nil
+//@   modifies storeMutations, lastStoreErr, lastStoreLease, lastStoreOp, remembered, lastBatchOpErr, batchOps, lastSuccessful
+//@   calls successfulLeaseIDs requires [C04:successful_ids_computed_from_the_batch_result] batchOps == old(batchOps) + 1 && lastBatchOpErr == nil && arg1 == pendingLeaseIDs && arg2 == res.Conflicts
+//@   calls rememberCompletedLease requires [C04:remember_only_leases_the_store_settled] arg2 == "ack" && ((batchOps == old(batchOps) + 1 && lastBatchOpErr == nil && inIDs(lastSuccessful, arg1)) || (batchOps == old(batchOps) && storeMutations > old(storeMutations) && lastStoreErr == nil && lastStoreLease == arg1 && lastStoreOp == "ack"))
+//@   loop 2 invariant [batch_facts_kept] batchOps == old(batchOps) + 1 && lastBatchOpErr == nil && lastSuccessful == pre(lastSuccessful)
+//@   loop 3 invariant [single_ops_only] batchOps == old(batchOps) && storeMutations >= old(storeMutations)
+//@   ensures [C04:store_failure_is_500] result1 != nil ==> result1.StatusCode == 500 && result0.Succeeded == 0
+//@   ensures [C04:batch_path_reports_the_stores_conflicts] result1 == nil && batchOps == old(batchOps) + 1 ==> lastBatchOpErr == nil
+
+//@ func (*Server).NackBatch
+//@   requires s != nil
+//@   modifies storeMutations, lastStoreErr, lastStoreLease, lastStoreOp, remembered, lastBatchOpErr, batchOps, lastSuccessful
+//@   calls successfulLeaseIDs requires [C04:successful_ids_computed_from_the_batch_result] batchOps == old(batchOps) + 1 && lastBatchOpErr == nil && arg1 == pendingLeaseIDs && arg2 == res.Conflicts
+//@   calls rememberCompletedLease requires [C04:remember_only_leases_the_store_settled] arg2 == "nack" && ((batchOps == old(batchOps) + 1 && lastBatchOpErr == nil && inIDs(lastSuccessful, arg1)) || (batchOps == old(batchOps) && storeMutations > old(storeMutations) && lastStoreErr == nil && lastStoreLease == arg1 && (lastStoreOp == "nack" || lastStoreOp == "dead")))
+//@   calls queue.LeaseBatchStore.MarkDeadBatch requires [C04:dead_letter_only_when_asked] dead && callee_reason == reason && callee_leaseIDs == pendingLeaseIDs
+//@   calls queue.LeaseBatchStore.NackBatch requires [C04:nack_with_the_requested_delay] !dead && callee_delay == delay && callee_leaseIDs == pendingLeaseIDs
+//@   loop 2 invariant [batch_facts_kept] batchOps == old(batchOps) + 1 && lastBatchOpErr == nil && lastSuccessful == pre(lastSuccessful)
+//@   loop 3 invariant [single_ops_only] batchOps == old(batchOps) && storeMutations >= old(storeMutations)
+//@   ensures [C04:store_failure_is_500] result1 != nil ==> result1.StatusCode == 500 && result0.Succeeded == 0
